@@ -531,17 +531,27 @@ fn check_wrapper(empty_ctor: bool, steps: &[WStep], cx: &mut Cx) -> Result<(), F
     let reply = Reply { id: 1, payload: Binary::default(), gas_used: 0, result: SubMsgResult::Ok(SubMsgResponse { events: vec![], data: None, msg_responses: vec![] }) };
     let r = fn_tag(c.reply(deps.as_mut(), mock_env(), reply));
     ensure!(r == want_reply, "C20:wrapper-entry-point:reply", "reply dispatches to {:?}, last supplied {:?} (steps {:?})", r, want_reply, steps);
-    // the same through an App: the wrapper is stored next to another wrapper that carries the same
-    // checksum but no optional entry points; every supplied entry point must still be reachable
-    {
+    // the same through an App: the wrapper is stored next to other wrappers that carry the same
+    // checksum but no optional entry points (one of them a duplicated code); every supplied entry point must still be reachable
+    // layout 0: [decoy, wrapper]; layout 1: [decoy, duplicate of the decoy, wrapper, another decoy]
+    for layout in 0..2 {
         let mut app = App::default();
         let owner = app.api().addr_make("owner");
-        let mut decoy: W = ContractWrapper::new(w_exec, w_inst, w_query);
-        if let Some(ck) = want_ck {
-            decoy = decoy.with_checksum(ck);
+        let mk_decoy = || {
+            let mut decoy: W = ContractWrapper::new(w_exec, w_inst, w_query);
+            if let Some(ck) = want_ck {
+                decoy = decoy.with_checksum(ck);
+            }
+            decoy
+        };
+        let decoy_id = app.store_code(Box::new(mk_decoy()));
+        if layout == 1 {
+            ensure!(app.duplicate_code(decoy_id).is_ok(), "harness:duplicate-code", "duplicating a stored code failed");
         }
-        let _decoy_id = app.store_code(Box::new(decoy));
         let id = app.store_code(Box::new(build_wrapper(empty_ctor, steps)));
+        if layout == 1 {
+            let _ = app.store_code(Box::new(mk_decoy()));
+        }
         let addr = match app.instantiate_contract(id, owner.clone(), &Empty {}, &[], "w", Some(owner.to_string())) {
             Ok(a) => a,
             Err(e) => fail!("C20:wrapper-in-app:instantiate", "wrapper built with {:?} cannot be instantiated in an App: {}", steps, e),
